@@ -83,6 +83,7 @@ type handled struct {
 	Dest     string
 	Value    any
 	Group    string
+	Username *string // as claimed in the message
 	Before   rtpconn.VerifClientState
 	After    rtpconn.VerifClientState
 	Enter    int64
@@ -208,7 +209,7 @@ func (w *confWorld) installProbes() {
 				return
 			}
 			h := &handled{Enter: w.c.Stamp(), At: time.Now(), StepsIn: r.Steps, Before: wc.VerifState()}
-			h.Type, h.Kind, h.Id, _, h.Dest, _, h.Value = m.VerifFields()
+			h.Type, h.Kind, h.Id, _, h.Dest, h.Username, h.Value = m.VerifFields()
 			h.Group, _, _, _, _ = m.VerifMore()
 			if a := wc.Addr(); a != nil {
 				h.Addr = a.String()
